@@ -409,6 +409,10 @@ func c14Main(seed uint64, n int, outDir, repo string) error {
 		"func g() { defer probe(1); return 2 }; g()", "s = import(\"strings\"); s.ToUpper(\"abc\")", "m = {\"a\": 1}; m.b = 2; m",
 		"t = 0; for i = 0; i < 5; i++ { t += i }; t", "probe(1)(2)", "func(a, b, c, d, e) { return e }(1, 2, 3, 4, 5)",
 		"func v(a...) { return len(a) }; v(1, 2, 3) + v([1, 2]...)", "try { throw \"x\" } catch e { probe(e) }", "1000 + 4095 + 4096 - 1",
+		// writes through pointers to computed small integers, booleans, nil and shared literals must stay private to the run
+		"n = 0; n++; p = &n; *p = *p + 1; n", "x = 0; x++; x", "n = 3 - 2; p = &n; *p = 41; [n, 0 + 1, 2 - 1]", "b = (1 == 1); p = &b; *p = false; [b, 1 == 1, true]",
+		"s = \"a\" + \"b\"; p = &s; *p = \"zz\"; [s, \"a\" + \"b\"]", "a = [1, 2]; p = &a; *p = [9]; [a, len([1, 2])]", "n = len([7]); p = &n; *p = 5; [n, len([7])]",
+		"v = make(struct { A int64 }); v.A = 1; v.A++; q = &v.A; *q = 30; [v.A, 1 + 1]", "x = nil; p = &x; *p = 1; [x, nil]", "m = {\"k\": 1}; m.k++; p = &m; (*p).k = 5; [m.k, 1 + 1]",
 	}
 	add := func(src string) {
 		r, ok := c14One(src)
